@@ -43,6 +43,11 @@ class RailroadNodeWalker(NodeWalker):
     def walk(self, node: Any, *_args, **_kwargs) -> Any:
         return list(super().walk(node))
 
+    @staticmethod
+    def _oneline(literal: Any) -> str:
+        # a rail is one line of the diagram
+        return str(literal).replace('\r', r'\r').replace('\n', r'\n')
+
     def walk_default(self, node: g.Model) -> Rails:
         return [f' <{node!r}> ']
 
@@ -59,11 +64,13 @@ class RailroadNodeWalker(NodeWalker):
 
         params = ''
         if rule.params:
-            params = ','.join(p for p in rule.params)
+            params = ','.join(rule.param_repr(p) for p in rule.params)
 
         kwparams = ''
         if rule.kwparams:
-            kwparams = ','.join(f'{k}={v}' for k, v in rule.kwparams.items())  # type: ignore
+            kwparams = ','.join(
+                f'{k}={rule.param_repr(v)}' for k, v in rule.kwparams.items()
+            )
 
         if params and kwparams:
             params = f'{params}, {kwparams}'
@@ -158,7 +165,7 @@ class RailroadNodeWalker(NodeWalker):
         return [" ⚠ "]
 
     def walk_constant(self, constant: g.Constant) -> Rails:
-        return [f'`{constant.literal}`']
+        return [f'`{self._oneline(constant.literal)}`']
 
     def walk_dot(self, _dot: g.Dot):
         return [" ∀ "]
@@ -167,7 +174,7 @@ class RailroadNodeWalker(NodeWalker):
         return self.walk_box(group)
 
     def walk_alert(self, alert: g.Alert):
-        return [f'{'^' * alert.level}`{alert.literal}`']
+        return [f'{'^' * alert.level}`{self._oneline(alert.literal)}`']
 
     def walk_skip_to(self, skipto: g.SkipTo):
         return weld([' ->('], self.walk(skipto.exp), [')'])
